@@ -22,6 +22,13 @@
 //	info <i>                                    -> info=<H>/<G> | info=none   (stored GeneratorInfo: Height/MaxHeightGenerated)
 //	certify <mask>                              -> ok              (validators in mask certify the newest precommitted height)
 //
+// Boundary families (boundary.go): `reset chain … vmax=<V>` gives the node's block verification the payload limit V
+// (the engine gives Chain and Generator the same configuration value; without the key the node keeps 15 KiB);
+// `forge <i> <pool> w=first|last` runs forge in the first / last second of the slot in which it may generate;
+// a forged block above the VERIFIER's limit (only possible with vmax < maxsize) must be rejected: acc=0;
+//
+//	vprobe <j> <pool>                           -> vprobe total=<bytes> acc=<0|1>  (block of another generator carrying the whole pool, verifyBlock only)
+//
 // pool = `s:n:f:p:z:v:e,...` (see pool.go) or `-`.
 package c15
 
@@ -563,6 +570,8 @@ func (prop) Generate(rng *rand.Rand, tier string) []corr.Case {
 		}
 		cases = append(cases, corr.Case{Ops: g.ops, Tag: "chain-assets"})
 	}
+	// producer / verifier at the boundary values of the limits they share (boundary.go)
+	cases = append(cases, genBoundaryCases(rng, tier)...)
 	return cases
 }
 
@@ -583,6 +592,8 @@ type runner struct {
 	certified map[int]uint32       // validator -> height it already certified (the pool keeps duplicates)
 	maxGen    map[int]uint32       // reference: largest height of a header of own validator i that reached the hand-off
 	signed    map[int][]*signedHdr // all headers handed on by validator i, oldest first
+
+	boundaryClass string // boundary class of the block forged last (boundary.go): suffix of the rejection signature
 }
 
 func (x *runner) fail(sig, f string, a ...interface{}) {
@@ -644,6 +655,11 @@ func (x *runner) step(w []string) string {
 			seed, _ := kv(w, "seed")
 			ms, _ := kv(w, "maxsize")
 			cfg := node.Config{NumValidators: nv, Seed: int64(seed)}
+			if vm, ok := kv(w, "vmax"); ok && vm > 0 {
+				// payload limit of the node's block verification (the engine gives Chain and Generator the
+				// same configuration value; without the key the node keeps the engine default of 15 KiB)
+				cfg.MaxTransactionsLength = uint32(vm)
+			}
 			for _, tok := range w {
 				if strings.HasPrefix(tok, "weights=") {
 					for _, ws := range strings.Split(tok[len("weights="):], "-") {
@@ -677,6 +693,8 @@ func (x *runner) step(w []string) string {
 		return x.opForge(w)
 	case "del":
 		return x.opDel(w)
+	case "vprobe":
+		return x.opVProbe(w)
 	case "restart", "crash":
 		if err := x.r.Restart(w[0] == "crash"); err != nil {
 			x.fail("c15-harness", "restart: %v", err)
@@ -933,8 +951,11 @@ func (x *runner) parseVChange(tok string) (*node.ValidatorChange, bool) {
 func (x *runner) opForge(w []string) string {
 	var vc *node.ValidatorChange
 	var extraAssets []*blockchain.BlockAsset
+	edge := ""
 	if len(w) == 4 && w[0] == "forge" {
-		if strings.HasPrefix(w[3], "as=") {
+		if strings.HasPrefix(w[3], "w=") {
+			edge = w[3][2:] // slot edge: the second of the slot in which forge runs (boundary.go)
+		} else if strings.HasPrefix(w[3], "as=") {
 			// the application inserts k further assets, handed over in an order that is NOT the module order
 			k, err := strconv.Atoi(w[3][3:])
 			if err != nil || k < 1 || k > 4 {
@@ -966,6 +987,12 @@ func (x *runner) opForge(w []string) string {
 	r := x.r
 	v := r.own[i]
 	within := uint32(3 + (len(w[2])+x.op)%int(r.n.Cfg.BlockTime-5))
+	if edge != "" {
+		var ok bool
+		if within, ok = x.edgeWithin(edge, v); !ok {
+			return "bad-op"
+		}
+	}
 	ts, ok := r.slotTimeFor(v, within)
 	if !ok {
 		x.fail("c15-harness", "validator %d has no slot", i)
@@ -1057,7 +1084,10 @@ func (x *runner) opForge(w []string) string {
 	if ref != nil {
 		x.diffHeader(ref.Header, h, len(b.Transactions) == 0)
 	}
-	// (5) the node accepts it
+	// (5) the node accepts it (boundary.go: which limits the block sits at; oversized = above the limit
+	// the reset op gave the VERIFIER, where it differs from the generator's)
+	oversized, class := x.noteBoundary(pool, b)
+	x.boundaryClass = class
 	acc := 0
 	switch w[0] {
 	case "forge":
@@ -1065,7 +1095,10 @@ func (x *runner) opForge(w []string) string {
 		if res.Applied {
 			acc = 1
 			sh.applied = true
-		} else {
+			if oversized {
+				x.fail("c15-oversized-block-accepted", "block at height %d accepted although its payload is above the node's limit %d", b.Header.Height, r.n.Cfg.MaxTransactionsLength)
+			}
+		} else if !oversized {
 			x.rejected(b, res.Err, res.ForkChoice)
 		}
 	case "forgedrop":
@@ -1097,7 +1130,14 @@ func (x *runner) rejected(b *blockchain.Block, err error, how string) {
 		x.fail("c15-forged-block-rejected:aggregate-commit", "the node rejects the aggregate commit it produced itself (defect of C06): %v", aerr)
 		return
 	}
-	x.fail("c15-forged-block-rejected", "forged block at height %d rejected by the same node (%s): %v", b.Header.Height, how, err)
+	sig, size := "c15-forged-block-rejected", 0
+	for _, tx := range b.Transactions {
+		size += tx.Size()
+	}
+	if x.boundaryClass != "" {
+		sig += ":" + x.boundaryClass
+	}
+	x.fail(sig, "forged block at height %d (payload %d bytes of %d transactions, generator limit %d, verifier limit %d) rejected by the same node (%s): %v", b.Header.Height, size, len(b.Transactions), x.r.maxSize, x.r.n.Cfg.MaxTransactionsLength, how, err)
 }
 
 // diffHeader compares the forged header with the header the harness' builder makes for the same
@@ -1190,8 +1230,10 @@ func (prop) Classify(c corr.Case, out []string) string {
 			feats[w[0]] = true
 		case "del":
 			feats["del"] = true
+		case "vprobe":
+			feats["vprobe"] = true
 		case "forge":
-			if len(w) == 4 {
+			if len(w) == 4 && !strings.HasPrefix(w[3], "w=") {
 				feats["vchange"] = true
 			}
 			if i < len(out) {
@@ -1202,6 +1244,9 @@ func (prop) Classify(c corr.Case, out []string) string {
 				}
 				if strings.Contains(out[i], "sel=") && !strings.Contains(out[i], "sel=-") {
 					feats["txs"] = true
+				}
+				if strings.HasPrefix(c.Tag, "boundary") {
+					boundaryFeats(c.Ops[0], w, out[i], feats)
 				}
 			}
 		}
